@@ -1544,6 +1544,8 @@ var shapeTargets = []shapeTarget{
 	{"cmd/thruserv", "handleWebSocket", "", "if-msg:message too large", "handler_msg_size"},
 	{"cmd/thruserv", "handleWebSocket", "", "if-msg:websocket message rate limit exceeded", "handler_msg_rate"},
 	{"cmd/thruserv", "Acquire", "connLimiter", "if-ret-false", "connlimiter_acquire"},
+	{"cmd/thruserv", "handleWebSocket", "", "seq:defer wsConnLimiter.Release()|wsConnLimiter.Release()", "handler_slot_release"},
+	{"cmd/thruserv", "handleWebSocket", "", "if-cond-has:wsConnLimiter.Acquire", "handler_slot_acquire"},
 	{"cmd/thruserv", "Allow", "tokenBucket", "if-ret-false", "bucket_allow"},
 	{"cmd/thruserv", "handleWebSocket", "", "assign:env.From", "handler_from_overwrite"},
 	{"cmd/thruserv", "handleWebSocket", "", "args:hub.SendTo", "handler_sendto_args"},
@@ -1565,6 +1567,13 @@ var shapeTargets = []shapeTarget{
 	{"internal/transfer", "RecvManifestMultiStream", "", "assign:registered", "filewait_ready_pred"},
 	{"internal/transfer", "RecvManifestMultiStream", "", "args:fileReady.signal", "filewait_signal_args"},
 	{"internal/transfer", "RecvManifestMultiStream", "", "seq:stateByKey[key] = state|fileReady.signal(key)|state := stateByKey[fileKey]|verifhook.Point(\"recv.reader.before_wait\", fileKey)", "filewait_order"},
+	// multi-connection stream placement and acceptance (Model/ProtoLMC)
+	{"internal/transfer", "OpenStream", "multiConn", "assign:idx", "multiconn_open_rr"},
+	{"internal/transfer", "AcceptStream", "multiConn", "if-all", "multiconn_accept_ifs"},
+	{"internal/transfer", "AcceptStream", "multiConn", "args:m.conns[0].AcceptStream", "multiconn_accept_control"},
+	{"internal/transfer", "acceptLoop", "multiConn", "args:conn.AcceptStream", "multiconn_loop_accept"},
+	{"internal/transfer", "startAcceptLoops", "multiConn", "args:m.acceptLoop", "multiconn_loops"},
+	{"internal/transfer", "SendManifestMultiStream", "", "seq:controlStream, err := conn.OpenStream(ctx)|stream, err := conn.OpenStream(ctx)", "send_open_order"},
 	// the frame checksum test of the receiver's data readers (enclosing conditions first)
 	{"internal/transfer", "RecvManifestMultiStream", "", "if-cond-has:!= chunkCRC", "recv_frame_crc_test"},
 	{"internal/transfer", "SendManifestMultiStream", "", "assign:chunkCRC", "send_frame_crc"},
@@ -1722,7 +1731,7 @@ func (w *world) shapesIn(body *ast.BlockStmt, sel string) []string {
 		case strings.HasPrefix(sel, "seq:"):
 			// simple statements whose text is one of the given ones, in source order
 			switch n.(type) {
-			case *ast.AssignStmt, *ast.ExprStmt:
+			case *ast.AssignStmt, *ast.ExprStmt, *ast.DeferStmt:
 				var buf bytes.Buffer
 				printer.Fprint(&buf, w.fset, n)
 				for _, want := range strings.Split(sel[4:], "|") {
